@@ -71,6 +71,8 @@ def work(task):
             tqu = tu
         for _ in range(reps):
             ta, pm = nonzero(rng, b), nonzero(rng, b)
+            if rng.random() < 0.08:
+                ta = enc_round(Fraction(0), b)          # "0 km per 2 h": legal for rate * value, a zero divisor for value / rate
             q = amount_for(rng, b, pent, qu)
             t = amount_for(rng, b, tent, tqu)
             fv = rng.random() < 0.5
@@ -166,8 +168,10 @@ def judge(part, case, resps, ctx):
         if d > 2 * tol_rq:
             viol("order", "rate*q = %s but q*rate = %s" % (r1["rq"]["a"], r1["qr"]["a"]))
     # t / rate and reciprocal * t
-    exp_td, tol_td = tol_for(tamt, s_tqu, ta, s_tu, pm)
-    td_in_range = b != "dec" or (orc.in_box_value(exp_td) and orc.in_box_value(tamt * s_tqu / s_tu) and orc.in_box_value(tamt * s_tqu / s_tu / ta))
+    exp_td, tol_td = tol_for(tamt, s_tqu, ta, s_tu, pm) if ta != 0 else (Fraction(0), Fraction(0))
+    if ta == 0:
+        part.count("zero_term_amount")
+    td_in_range = ta != 0 and (b != "dec" or (orc.in_box_value(exp_td) and orc.in_box_value(tamt * s_tqu / s_tu) and orc.in_box_value(tamt * s_tqu / s_tu / ta)))
     for form, offered in (("tdr", offered_tdr), ("rect", True)):
         res = r1[form]
         if not td_in_range:
@@ -190,7 +194,7 @@ def judge(part, case, resps, ctx):
             viol("value_" + form, "%s = %s, expected per amount x (value / term value) = %.17g; err/tol=%.3g" % (form, res["a"], float(exp_td), float(ratio)))
     # (rate * q) / rate ~ q in the per unit
     back = r1["back"]
-    if not rq_in_range:
+    if not rq_in_range or ta == 0:
         back = None
     if back is not None and offered_tdr and "a" in back:
         exact = qa * s_qu / s_pu
